@@ -401,7 +401,8 @@ Definition finish (s : mstmt) (f : fin) : cmd (mstmt * (list Z * list Z)) :=
   ret (push_gp s4 (PFin f), out).
 
 (* ---- handles ---- *)
-Inductive sess := SPlain | SNewDB | SCtx | SDebug | SBegin.
+Inductive sess := SPlain | SNewDB | SCtx | SDebug | SBegin
+  | SNewCtx.   (* Session{NewDB: true, Context and/or SkipHooks}: a statement of its own AND clone mode 1 *)
 Inductive step :=
 | Derive (p : nat) (o : op)        (* handles[p].<chain method> *)
 | Sess (p : nat) (k : sess)        (* handles[p].Session(..) / WithContext / Debug / Begin *)
@@ -456,6 +457,9 @@ Definition do_step (st : state) (x : step) : state :=
             let '(c, h2, w2) := stmt_clone (get_stmt sts1 i) h1 in
             (sts1 ++ [c], st_handles st ++ [(length sts1, match snd (hd p) with S O => 1%nat | _ => 2%nat end)],
              st_outs st, h2, w1 ++ w2)
+        | SNewCtx =>
+            let '(c, h1, w1) := stmt_clone (get_stmt (st_stmts st) (fst (hd p))) (st_heap st) in
+            (st_stmts st ++ [c], st_handles st ++ [(length (st_stmts st), 1%nat)], st_outs st, h1, w1)
         end
     | Abandon p => (st_stmts st, st_handles st ++ [hd p], st_outs st, st_heap st, [])
     end in
@@ -637,7 +641,8 @@ Definition tree_clone_shared : list string :=
    share the parent's (model: SPlain)? *)
 Definition tree_session_clones : list (string * bool) :=
   [("allowglobal"%string, false); ("batchsize"%string, false); ("ctx"%string, true); ("dryrun"%string, false);
-   ("fullsave"%string, false); ("nonested"%string, false); ("plain"%string, false); ("queryfields"%string, false);
+   ("fullsave"%string, false); ("newdb"%string, false); ("newdb+ctx"%string, true); ("newdb+ctx+skiphooks"%string, true);
+   ("newdb+skiphooks"%string, true); ("nonested"%string, false); ("plain"%string, false); ("queryfields"%string, false);
    ("skipdeftx"%string, false); ("skiphooks"%string, true)].
 (* chain methods append in place only onto these statement-owned slices *)
 Definition tree_self_appends : list string := ["Joins"%string; "Selects"%string; "scopes"%string].
